@@ -455,6 +455,7 @@ Definition fs_okb (s : schema) (c : cas) (ids : list Z) (io : xid * oid) : bool 
       if is_array_name tn then
         forallb (fun fd => String.eqb (fd_name fd) (fd_xname fd) && negb (inline_fd fd)) (ti_feats ti) &&
         memb "elements" (map fd_xname (ti_feats ti)) &&
+        Bool.eqb (isa s tn T_STRING_ARRAY) (String.eqb tn T_STRING_ARRAY) &&
         match slot f "elements" with
         | VNone => true
         | VList l => forallb (array_elem_okb tn (c_heap c) ids) l
